@@ -14,7 +14,9 @@ uint64_t nondet_u64(void); uint32_t nondet_u32(void); uint8_t nondet_u8(void); i
 #else
 #define PROP(c, msg) __CPROVER_assert(c, msg)
 #endif
+#ifndef NPMAX
 #define NPMAX 8
+#endif
 static Pos P; static SBoard S;
 /* counterexample read-out */
 uint32_t ce_n, ce_pc[NPMAX], ce_sq[NPMAX], ce_side, ce_cr, ce_ep, ce_hm, ce_ply, ce_mv, ce_aux, ce_aux2;
